@@ -100,8 +100,11 @@ pub fn cmd_sweep(args: &[String]) -> i32 {
     let seed: u64 = arg(args, "--seed").and_then(|s| s.parse().ok()).unwrap_or(1);
     let ngen: u64 = arg(args, "--generated").and_then(|s| s.parse().ok()).unwrap_or(200);
     let replay_dir = arg(args, "--replays").unwrap_or("/verif/replays").to_string();
+    let emit: Option<u64> = arg(args, "--emit-crumb").and_then(|s| s.parse().ok());
     let _ = std::fs::create_dir_all(&out_dir);
-    crate::crumb::init(&format!("{out_dir}/crumb-{kind}-{worker}"));
+    if emit.is_none() {
+        crate::crumb::init(&format!("{out_dir}/crumb-{kind}-{worker}"));
+    }
     let root = std::env::var("TZSIM_CORPUS").unwrap_or_else(|_| "/verif/corpus".to_string());
     let t0 = Instant::now();
     let files = corpus_distinct(&root);
@@ -132,8 +135,32 @@ pub fn cmd_sweep(args: &[String]) -> i32 {
         }
     }
 
+    if let Some(c) = emit {
+        // print the explicit scenario of the work item a breadcrumb names (crash containment)
+        let wi = (c / 1_000_000_000) as usize;
+        let sub = c % 1_000_000_000;
+        if let Some((content, _, label)) = work.get(wi) {
+            let fault = match kind {
+                "trunc" => Some(Fault::Short(sub as usize)),
+                "typed" => {
+                    if sub >= 900_000 {
+                        Some(Fault::Scribble(0, (sub - 900_000) * 7919 + 13))
+                    } else {
+                        let tk = TYPED_KINDS[(sub / 1000) as usize % TYPED_KINDS.len()];
+                        let a = sub % 1000;
+                        Some(Fault::Typed(tk.to_string(), a.wrapping_mul(0x9E37_79B9).wrapping_add(fnv(label.as_bytes()) % 97) % 100_000))
+                    }
+                }
+                _ => None,
+            };
+            print!("{}", scenario_for(content.clone(), fault, &prop).text());
+            return 0;
+        }
+        return 2;
+    }
+
     for (wi, (content, bytes, label)) in work.iter().enumerate() {
-        crate::crumb::set(wi as u64);
+        crate::crumb::set(wi as u64 * 1_000_000_000);
         let raw = match tzif::parse_raw(bytes) {
             Some(r) => r,
             None => {
@@ -151,6 +178,7 @@ pub fn cmd_sweep(args: &[String]) -> i32 {
                     }
                     digests.push(h ^ (k as u64).rotate_left(40));
                     evaluations += 1;
+                    crate::crumb::set(wi as u64 * 1_000_000_000 + k as u64);
                     let reg = region(&raw, bytes.len(), k);
                     match decode(&bytes[..k]) {
                         Ok(Err(_)) => {}
@@ -210,11 +238,12 @@ pub fn cmd_sweep(args: &[String]) -> i32 {
                 }
             }
             "typed" => {
-                for tk in TYPED_KINDS {
+                for (tki, tk) in TYPED_KINDS.iter().enumerate() {
                     let nargs = 24u64;
                     for a in 0..nargs {
                         let argv = a.wrapping_mul(0x9E37_79B9).wrapping_add(fnv(label.as_bytes()) % 97) % 100_000;
                         if let Some(b) = tzif::typed(&raw, tk, argv) {
+                            crate::crumb::set(wi as u64 * 1_000_000_000 + tki as u64 * 1000 + a);
                             let d = fnv(&b);
                             digests.push(d);
                             evaluations += 1;
@@ -235,6 +264,7 @@ pub fn cmd_sweep(args: &[String]) -> i32 {
                 let base = decode(bytes);
                 for a in 0..4u64 {
                     if let Some(b) = tzif::scribble(&raw, 0, a * 7919 + 13) {
+                        crate::crumb::set(wi as u64 * 1_000_000_000 + 900_000 + a);
                         evaluations += 1;
                         digests.push(fnv(&b));
                         bump(&mut counters, "scribble_v1_block");
